@@ -1,119 +1,1 @@
-(* C15 - Spinner returns the function's own result within the timeout and restores process state (PARTIAL:
-   the reactor, Twisted's Deferred and signal delivery are modelled).  Only statements; every proof is
-   `exact <lemma of Proof/C15.v>`.  "idle w": the reactor is stopped and empty, reactor.stop is the real
-   stop, the re-entrancy flag is down - the state of a fresh spinner and, by C15_clean, of a used one. *)
-From Coq Require Import Permutation.
 From TT Require Import Lib.Base Lib.Sort Model.Reactor Model.Spinner Gen.Spinnertabs Spec.C15 Corr.C15 Proof.C15.
-
-(* The model meets the whole statement, for every history of runs on one spinner, every function, every
-   timing, every stop instant, every tie-break oracle, every set of pre-installed handlers. *)
-Theorem C15_holds : forall i : input, wf i -> spec_okb i (model i) = true.
-Proof. exact model_meets_spec. Qed.
-Print Assumptions C15_holds.
-
-Theorem C15_statement : forall i o, spec_okb i o = true -> Spec i o.
-Proof. exact (fun i o => proj1 (spec_okb_iff i o)). Qed.
-Print Assumptions C15_statement.
-
-Theorem C15_obs_eqb : forall a b, obs_eqb a b = true <-> a = b.
-Proof. exact obs_eqb_spec. Qed.
-Print Assumptions C15_obs_eqb.
-
-(* run returns v / raises e / raises TimeoutError / raises NoResultError exactly as the timing dictates:
-   a synchronous result is the result; otherwise the earliest of "the Deferred fires", "the timeout elapses",
-   "a stop is requested" decides, and among simultaneous ones any (whatever the tie-break oracle says). *)
-Theorem C15_result : forall T f w, idle w -> sp_junk (w_sp w) = [] ->
-  Allowed T f (fst (run spinner_iterations T f w)).
-Proof. exact result_as_timing. Qed.
-Print Assumptions C15_result.
-
-(* ... spelled out: a Deferred against the timeout (t < T, t > T, t = T), never firing, stopped first *)
-Theorem C15_result_cases : forall T f w t o, idle w -> sp_junk (w_sp w) = [] ->
-  f_shape f = Later t o -> f_stop f = None -> f_stop_now f = false ->
-  let r := fst (run spinner_iterations T f w) in
-  (t < T -> r = result_of o) /\ (T < t -> r = Raised ETimeout)
-  /\ (t = T -> r = result_of o \/ r = Raised ETimeout).
-Proof. exact result_cases. Qed.
-Print Assumptions C15_result_cases.
-
-Theorem C15_result_never : forall T f w, idle w -> sp_junk (w_sp w) = [] ->
-  f_shape f = Never -> f_stop f = None -> f_stop_now f = false ->
-  fst (run spinner_iterations T f w) = Raised ETimeout.
-Proof. exact result_never. Qed.
-Print Assumptions C15_result_never.
-
-Theorem C15_result_stopped_first : forall T f w s, idle w -> sp_junk (w_sp w) = [] ->
-  (forall h o, f_shape f <> Sync h o) -> f_stop f = Some s -> s < T ->
-  (forall t o, f_shape f = Later t o -> s < t) ->
-  fst (run spinner_iterations T f w) = Raised ENoResult.
-Proof. exact result_stopped_first. Qed.
-Print Assumptions C15_result_stopped_first.
-
-(* the two refusals: nothing happens at all *)
-Theorem C15_reentry : forall iters T f w, w_flag w = true -> run iters T f w = (Raised EReentry, w).
-Proof. exact reentry_refused. Qed.
-Print Assumptions C15_reentry.
-
-(* ... and the flag is up while the function runs: a call from inside it is refused *)
-Theorem C15_reentry_inside : forall T f w, idle w -> sp_junk (w_sp w) = [] -> f_reenter f = true ->
-  w_reentry (snd (run spinner_iterations T f w)) = Some true.
-Proof. exact reentry_from_function. Qed.
-Print Assumptions C15_reentry_inside.
-
-Theorem C15_stale_junk : forall iters T f w, w_flag w = false -> sp_junk (w_sp w) <> [] ->
-  run iters T f w = (Raised EStaleJunk, w).
-Proof. exact run_stale. Qed.
-Print Assumptions C15_stale_junk.
-
-(* on every exit the reactor is not running and its queues are empty (idle again) ... *)
-Theorem C15_clean : forall T f w, idle w -> idle (snd (run spinner_iterations T f w)).
-Proof. exact run_keeps_idle. Qed.
-Print Assumptions C15_clean.
-
-(* ... and everything the function left with the reactor either ran or is in junk, once *)
-Theorem C15_clean_junk : forall T f w, idle w -> sp_junk (w_sp w) = [] ->
-  let w' := snd (run spinner_iterations T f w) in
-  Permutation (w_ran w' ++ filter not_timeout_tok (sp_junk (w_sp w'))) (w_ran w ++ sched_tokens f).
-Proof. exact junk_accounts. Qed.
-Print Assumptions C15_clean_junk.
-
-(* reactor.stop and the preserved signal handlers equal their values before the call, on every path;
-   the signals the statement names are among the preserved ones of the live table *)
-Theorem C15_restored : forall T f w, idle w ->
-  let w' := snd (run spinner_iterations T f w) in
-  w_stop w' = SReal /\ really_stopped (w_r w') = false
-  /\ forall s, In s preserved_signals -> getsig s (w_sig w') = getsig s (w_sig w).
-Proof. exact run_restores. Qed.
-Print Assumptions C15_restored.
-
-Theorem C15_preserved_table :
-  In sig_int preserved_signals /\ In sig_term preserved_signals /\ In sig_chld preserved_signals.
-Proof. exact named_signals_preserved. Qed.
-Print Assumptions C15_preserved_table.
-
-Theorem C15_iterations_table : spinner_iterations = 0.
-Proof. exact spinner_iterations_0. Qed.
-Print Assumptions C15_iterations_table.
-
-(* the same for the n-th run of one spinner after clear_junk, whatever the earlier runs were *)
-Theorem C15_histories : forall orc rss T f, Forall wf_run rss ->
-  let w := clear_junk (world_after (new_world orc) rss) in
-  Allowed T f (fst (run spinner_iterations T f w))
-  /\ idle (snd (run spinner_iterations T f w))
-  /\ (forall s, In s preserved_signals ->
-        getsig s (w_sig (snd (run spinner_iterations T f w))) = getsig s (w_sig w)).
-Proof. exact nth_run_like_first. Qed.
-Print Assumptions C15_histories.
-
-(* non-vacuity: a failing run, then a run that must not see that failure (F10), then a tie at the timeout
-   decided by the oracle, with leftovers and a stop request *)
-Example C15_example :
-  let f1 := mkFn (Sync 0 (Fail 1)) [] 0 None false false None in
-  let f2 := mkFn (Sync 0 (Succeed 4)) [0] 1 None false true (Some (sig_int, 8)) in
-  let f3 := mkFn (Later 5 (Succeed 6)) [5; 9] 0 (Some 7) false false None in
-  map o_res (model (mkInput [2] [mkRun true [3; 1; 4] 5 f1; mkRun true [0; 0; 0] 5 f2; mkRun true [0; 2; 0] 5 f3]))
-  = [Raised (EUser 1); Ok 4; Ok 6]
-  /\ map o_res (model (mkInput [] [mkRun true [0; 0; 0] 5 f3])) = [Raised ETimeout]
-  /\ map o_junk (model (mkInput [1] [mkRun true [0; 0; 0] 5 f2; mkRun false [0; 0; 0] 5 f3])) = [[10; 100]; [10; 100]]
-  /\ wf (mkInput [1] [mkRun true [3; 1; 4] 5 f1]).
-Proof. vm_compute. repeat split. repeat constructor. Qed.
